@@ -89,5 +89,9 @@ def run(ctx):
     # contracts without the `replies` feature: which method the reply entry point hands the `Reply` to (expansion level)
     from . import C06
     C06.legacy_reply_stream(ctx, "cross-kind-reach")
+    # contracts overriding entry points on a multitest chain (override attributes in several orders): the operation of a kind runs the
+    # override / the handlers of that kind and of no other
+    from . import C12
+    C12.override_stream(ctx, cls_not_called="cross-kind-reach")
     ctx.cov["rule"] = ("every well-formed message of kind K1 of every generated program sent to every other entry point K2 (through entry_points::<K2> and "
                        "through <K2 message>::dispatch); programs deliberately share method names across kinds between contract and interfaces")
